@@ -37,11 +37,10 @@ macro_rules! impl_derivatives {
                     1 => self.clone(),
                     2 => self * self,
                     _ => {
-                        let pow3 = self.re.powi(exp - 3);
-                        let f0 = pow3.clone() * &self.re * &self.re * &self.re;
-                        let f1 = pow3.clone() * &self.re * &self.re * F::from(exp).unwrap();
-                        second!($deriv, let f2 = pow3.clone() * &self.re * (F::from(exp).unwrap() * F::from(exp - 1).unwrap()););
-                        third!($deriv, let f3 = pow3 * (F::from(exp).unwrap() * F::from(exp - 1).unwrap() * F::from(exp - 2).unwrap()););
+                        let f0 = self.re.powi(exp);
+                        let f1 = self.re.powi(exp - 1) * F::from(exp).unwrap();
+                        second!($deriv, let f2 = self.re.powi(exp - 2) * (F::from(exp).unwrap() * F::from(exp - 1).unwrap()););
+                        third!($deriv, let f3 = self.re.powi(exp - 3) * (F::from(exp).unwrap() * F::from(exp - 1).unwrap() * F::from(exp - 2).unwrap()););
                         chain_rule!($deriv, Self::chain_rule(self, f0, f1, f2, f3))
                     }
                 }
